@@ -71,7 +71,12 @@ FAMILIES = {
                  "matches('a-b', concat('^[\\w-[_]]+-[\\w]+$', substring(name(/*), 99)))", "count(tokenize('a, b;c', concat('[\\W\\s]+', substring(name(/*), 99))))",
                  "matches('α', concat('^\\p{IsGreek}$', substring(name(/*), 99)))",
                  "matches('abc', concat('\\p{IsNoBlock}', substring(name(/*), 99)))", "matches('abc', concat('^\\P{IsNoBlock}+$', substring(name(/*), 99)))",
-                 "matches('abc', concat('[\\p{IsNoBlock}a]', substring(name(/*), 99)))", "replace('ab12', concat('[\\D]', substring(name(/*), 99)), '#')"],
+                 "matches('abc', concat('[\\p{IsNoBlock}a]', substring(name(/*), 99)))", "replace('ab12', concat('[\\D]', substring(name(/*), 99)), '#')",
+                 # characters of the last blocks of the table: a No_Block that is observed while it is being built still has them
+                 "matches(codepoints-to-string(1114109), concat('\\p{IsNoBlock}', substring(name(/*), 99)))",
+                 "matches(codepoints-to-string((201552, 917505)), concat('\\p{IsNoBlock}', substring(name(/*), 99)))",
+                 "matches(codepoints-to-string(1114109), concat('^\\P{IsNoBlock}$', substring(name(/*), 99)))",
+                 "string-length(replace(codepoints-to-string((97, 65533, 1048576)), concat('\\P{IsNoBlock}', substring(name(/*), 99)), ''))"],
     'serial': ["serialize((//a)[1])", "parse-xml('<z><y>1</y></z>')//y/string()", "serialize(map{'a': 1}, map{'method': 'json'})",
                "json-to-xml('{\"a\": [1, 2]}')//*:number/string()", "xml-to-json(json-to-xml('[1, true, null]'))",
                "serialize(parse-xml('<p:z xmlns:p=\"urn:q\"/>'))"],
